@@ -1,0 +1,22 @@
+//go:build verif
+
+package tsdb
+
+import (
+	"context"
+
+	"github.com/lindb/lindb/models"
+)
+
+// VerifFlushJob runs one flush job for the given shard/families exactly as a flush worker of the
+// data flush checker does (dataFlushChecker.doFlush). Only compiled with -tags verif.
+func VerifFlushJob(db Database, shard Shard, families []DataFamily) {
+	fc := newDataFlushChecker(context.Background()).(*dataFlushChecker)
+	fc.flushInFlight.Inc()
+	fc.doFlush(&flushRequest{
+		db: db,
+		shards: map[models.ShardID]*flushShard{
+			shard.ShardID(): {shard: shard, families: families},
+		},
+	})
+}
